@@ -95,7 +95,9 @@ Consume ==
            nenv == Observe(renv, lev, rg)
        IN /\ renv' = nenv
           /\ badLine' = IF badLine = 0 /\ nenv.bad # "" THEN l ELSE badLine
-          /\ IF lev.e = "cat" \/ drift # 0
+          /\ IF lev.e = "fault"          \* an injected transient fault: the Design (fault-free) stops applying, without being drift (-1)
+             THEN UNCHANGED DesignVars /\ drift' = (IF drift = 0 THEN -1 ELSE drift)
+             ELSE IF lev.e = "cat" \/ drift # 0
              THEN UNCHANGED DesignVars /\ UNCHANGED drift
              ELSE IF ENABLED Explain(lev)
                   THEN Explain(lev) /\ UNCHANGED drift
